@@ -189,7 +189,7 @@ def preimage_real_transforms(verdict, tier, seed):
     if tier != "quick":
         cfgs.append(dict(flow="zuko", affine_transform=True, bounded_to_unbounded=True, bounded_transform="probit",
                          flow_kwargs={"hidden_features": [8]}, fit_kwargs={"n_epochs": 1, "batch_size": 32}))
-    nss = ["numpy", "torch", "jax"] if tier != "quick" else ["numpy", ["torch", "jax"][seed % 2]]
+    nss = ["numpy", "torch", "jax"]
     for ns in nss:
         xp = smcdrv.get_xp(ns)
         for ci, cf in enumerate(cfgs):
